@@ -273,3 +273,96 @@ def reexport(ctx):
     else:
         ctx.inconclusive.append("vacuity: correlate never completed")
     ctx.sample({"paths": E.paths})
+
+
+# ---------------------------------------------------------------------------------------
+# O4: which module a USE statement designates when the project defines a module whose name FORD also knows as an
+# intrinsic / "extra" module (mpi, omp_lib, iso_c_binding, ...): without module nature INTRINSIC the project's own
+# (non-intrinsic) module is accessed (F2008 11.2.2 para 2)
+# ---------------------------------------------------------------------------------------
+MODNAMES = ["geometry", "mpi", "MPI", "omp_lib", "iso_c_binding", "ieee_arithmetic", "openacc", "mpi_f08", "iso_fortran_env"]
+USE_FORMS = [("use {n}", None), ("USE {N}", None), ("use {n}, only: circle", None), ("use, non_intrinsic :: {n}", None),
+             ("use :: {n}", None), ("use {n}, only: disc => circle", "disc"), ("use, non_intrinsic :: {n}, only: disc => circle", "disc")]
+
+
+def _o4_files(name, use, ref):
+    return {"a.f90": ["module " + name if isinstance(name, str) else choice.apply(lambda n: "module " + n, name),
+                      "type circle", "integer :: c", "end type circle", "contains", "subroutine area()", "end subroutine area",
+                      "end module"],
+            "b.f90": ["module client", use, ref, "contains", "subroutine go()", "call area()", "end subroutine go", "end module client"]}
+
+
+def _o4_observe(p):
+    cl = [m for m in p.modules if str(m.name).lower() == "client"][0]
+    v = cl.variables[0]
+    pr = v.proto[0]
+    go = cl.subroutines[0]
+    callee = go.calls[0] if go.calls else None
+    def own(x):
+        if x is None or isinstance(x, (str, CV)):
+            return None
+        par = getattr(x, "parent", None)
+        return (os.path.basename(str(getattr(x, "filename", "") or getattr(par, "filename", ""))), str(x.name).lower())
+    used = [u for u in (cl.uses or [])]
+    return own(pr), own(callee), [type(u).__name__ for u in used]
+
+
+import os  # noqa: E402
+
+
+def replay_o4(w):
+    import ford.sourceform as sf
+    old = sf.namelist
+    sf.namelist = sf.NameSelector()
+    try:
+        p = parserh.project_concrete(_o4_files(w["module"], w["use"], w["ref"]), **CSET)
+        t, c, kinds = _o4_observe(p)
+    finally:
+        sf.namelist = old
+    want_c = None if "only" in w["use"].lower() else ("a.f90", "area")
+    bad = t != ("a.f90", "circle") or c != want_c or kinds != ["FortranModule"]
+    return bad, {"project module": w["module"], "use": w["use"], "reference": w["ref"], "type resolved to": t, "call resolved to": c,
+                 "used module objects": kinds, "expected": "the project's own module (a.f90)"}
+
+
+@obligation("C06", "O4.project-module-named-like-intrinsic", engine="SX(CV)", timeout=1800)
+def local_named_like_intrinsic(ctx):
+    """the project defines a module whose name is symbolic over {ordinary, mpi, omp_lib, iso_c_binding, ...} (letter case too); a
+    client USEs it in several forms: the USE binds to the project's module and imports its public type and procedure"""
+    import ford.fortran_project as fp
+    import ford.sourceform as sf
+
+    ctx.encode_fn(fp.find_used_modules)
+    ctx.encode_fn(fp.Project.correlate)
+    ctx.encode_fn(sf.FortranCodeUnit.correlate)
+    ctx.bounds.update({"module names": MODNAMES, "use forms": len(USE_FORMS)})
+    ctx.stubs.append("FortranReader replaced by the symbolic statement lists of two files")
+
+    def h(E):
+        n = CV.choice(E, "modname", MODNAMES)
+        u = CV.choice(E, "useform", USE_FORMS)
+        use = choice.apply(lambda f, nm: f[0].replace("{n}", nm).replace("{N}", nm.upper()), u, n)
+        ref = choice.apply(lambda f: "type(%s) :: v" % (f[1] or "circle"), u)
+        E.e.snapshot = lambda m: {"module": choice.value_in_model(m, n), "use": choice.value_in_model(m, use), "ref": choice.value_in_model(m, ref)}
+        got = parserh.project(_o4_files(n, use, ref), post=_o4_observe, **CSET)
+        E.reachable("correlated")
+        t, c, kinds = got
+        E.require(choice.apply(lambda x: x == ("a.f90", "circle"), t) if isinstance(t, CV) else t == ("a.f90", "circle"),
+                  "type imported from the project's own module is not resolved to it")
+        want_c = choice.apply(lambda f: None if "only" in f[0] else ("a.f90", "area"), u)   # an ONLY list without `area` does not import it
+        E.require(choice.apply(lambda x, w_: x == w_, c, want_c), "procedure imported from the project's own module is not resolved to it")
+        E.require(kinds == ["FortranModule"], "the USE statement is not bound to the project's module")
+
+    E = sym.Engine(ctx, max_paths=20000, incremental=True)
+    found = E.explore(h)
+    seen = set()
+    for (label, m, pc), snap in zip(found, E.snapshots):
+        if label in seen or not snap:
+            continue
+        seen.add(label)
+        ctx.report(label, snap, replay_o4)
+    if E.reached.get("correlated"):
+        ctx.twins += 1
+    else:
+        ctx.inconclusive.append("vacuity: correlate never completed")
+    ctx.sample({"paths": E.paths})
